@@ -3741,8 +3741,11 @@ impl M2Model {
                     }
 
                     // Map ranges offset (pre-WotLK only, skip if already mapped)
-                    if let (Some(ranges), Some(orig_offset)) =
-                        (&anim.ranges, anim.original_ranges_offset)
+                    // From WotLK on the bone tracks have no ranges reference, so ranges that a
+                    // converted model still carries must not be written either
+                    if header.version < 264
+                        && let (Some(ranges), Some(orig_offset)) =
+                            (&anim.ranges, anim.original_ranges_offset)
                         && let Entry::Vacant(e) = offset_map.entry(orig_offset)
                     {
                         e.insert(anim_data_offset);
@@ -3779,9 +3782,10 @@ impl M2Model {
                         data_section.extend_from_slice(&anim.values);
                     }
 
-                    // Write ranges only if not already written
-                    if let (Some(ranges), Some(orig_offset)) =
-                        (&anim.ranges, anim.original_ranges_offset)
+                    // Write ranges only if not already written (pre-WotLK only, as above)
+                    if header.version < 264
+                        && let (Some(ranges), Some(orig_offset)) =
+                            (&anim.ranges, anim.original_ranges_offset)
                         && written_offsets.insert(orig_offset)
                     {
                         data_section.extend_from_slice(ranges);
